@@ -182,6 +182,23 @@ def run_lookup(case, ctx):
                 c = Isotope(a.name, a.symbol, a.element, a.mass_number, a.atomic_weight)
             ctx.check(c == a and a == c and not (c != a), "eq-copy", "reconstructed copy of %s does not compare equal" % an)
             ctx.check(hash(c) == hash(a), "hash-copy", "equal copies of %s hash differently" % an)
+            # other ways an equal-but-not-identical object comes about: pickle round trip, deepcopy, an isotope built on an
+            # equal copy of its parent element.  Whatever compares equal must hash equally and find the same dict slot.
+            import copy as _copy, pickle as _pickle
+            others = [("pickle", _pickle.loads(_pickle.dumps(a))), ("deepcopy", _copy.deepcopy(a))]
+            if type(a) is Isotope:
+                pe = a.element
+                others.append(("cloned-parent", Isotope(a.name, a.symbol, Element(pe.name, pe.symbol, pe.atomic_number, pe.atomic_weight),
+                                                        a.mass_number, a.atomic_weight)))
+            for how, o in others:
+                if o == a:
+                    ctx.check(a == o and not (o != a) and not (a != o), "eq-copy", "%s copy of %s: == and != disagree" % (how, an))
+                    ctx.check(hash(o) == hash(a), "hash-copy", "%s copy of %s compares equal but hashes differently" % (how, an))
+                    ctx.check({a: 1}.get(o) == 1, "dict", "dict lookup through the %s copy of %s failed" % (how, an))
+                    ctx.label("copy:" + how + ":equal")
+                else:
+                    ctx.check((o != a) and (a != o) and not (a == o), "eq-copy", "%s copy of %s: == and != disagree" % (how, an))
+                    ctx.label("copy:" + how + ":unequal")
             d = {BYNAME[bn]: bn for bn in case["b"]}
             d[a] = "A"
             ctx.check(d[c] == "A", "dict", "dict lookup through an equal copy of %s failed" % an)
